@@ -491,3 +491,80 @@ pub fn pick_index(x: u16, len: usize) -> usize {
 pub fn boxed<T: Debug, S: Strategy<Value = T> + 'static>(s: S) -> BoxedStrategy<T> {
     s.boxed()
 }
+
+// ---------------------------------------------------------------------------------------------
+// (de)serialisation of a report, for campaigns that run in child processes
+
+pub fn report_to_json(rep: &Report) -> Value {
+    json!({
+        "evaluations": rep.stats.evals,
+        "nontrivial": rep.stats.nontrivial.iter().collect::<Vec<_>>(),
+        "hist": rep.stats.hist,
+        "fmax": rep.stats.fmax,
+        "samples": rep.samples,
+        "sections": rep.sections,
+        "extra": rep.extra,
+        "violation": rep.violation.as_ref().map(|v| json!({"section": v.section, "case": v.case, "message": v.message, "preceding": v.preceding})),
+    })
+}
+
+/// Merge a child's report (as produced by `report_to_json`) into `rep`.
+pub fn absorb_child_report(rep: &mut Report, v: &Value, salt: u64) {
+    rep.stats.evals += v["evaluations"].as_u64().unwrap_or(0);
+    if let Some(a) = v["nontrivial"].as_array() {
+        for x in a {
+            if let Some(h) = x.as_u64() {
+                rep.stats.nontrivial.insert(h ^ salt);
+            }
+        }
+    }
+    if let Some(h) = v["hist"].as_object() {
+        for (k, x) in h {
+            let n = x.as_u64().unwrap_or(0);
+            if k.starts_with("max:") {
+                let e = rep.stats.hist.entry(k.clone()).or_insert(0);
+                if n > *e {
+                    *e = n;
+                }
+            } else {
+                *rep.stats.hist.entry(k.clone()).or_insert(0) += n;
+            }
+        }
+    }
+    if let Some(h) = v["fmax"].as_object() {
+        for (k, x) in h {
+            if let Some(f) = x.as_f64() {
+                let e = rep.stats.fmax.entry(k.clone()).or_insert(f64::NEG_INFINITY);
+                if f > *e {
+                    *e = f;
+                }
+            }
+        }
+    }
+    if let Some(a) = v["samples"].as_array() {
+        for x in a {
+            if rep.samples.len() < 16 {
+                rep.samples.push(x.clone());
+            }
+        }
+    }
+    if let Some(a) = v["sections"].as_array() {
+        for x in a {
+            rep.sections.push(x.clone());
+        }
+    }
+    if let Some(e) = v["extra"].as_object() {
+        for (k, x) in e {
+            rep.extra.insert(k.clone(), x.clone());
+        }
+    }
+    if rep.violation.is_none() && v["violation"].is_object() {
+        let w = &v["violation"];
+        rep.violation = Some(Violation {
+            section: w["section"].as_str().unwrap_or("").to_string(),
+            case: w["case"].clone(),
+            message: w["message"].as_str().unwrap_or("").to_string(),
+            preceding: w["preceding"].as_array().cloned().unwrap_or_default(),
+        });
+    }
+}
